@@ -99,6 +99,28 @@ class Property(cssutils.util.Base):
         return cssutils.ser.do_Property(self)
 
     def _setCssText(self, cssText):
+        """see :meth:`_setCssTextUnguarded`, if a part of the new text is
+        rejected with an exception the parts set before are restored"""
+        old = (
+            self.wellformed,
+            self._name,
+            self._literalname,
+            list(self.seqs),
+            self._priority,
+            self._literalpriority,
+        )
+        oldvalue = (self.seqs[1].seq, self.seqs[1].wellformed)
+        try:
+            self._setCssTextUnguarded(cssText)
+        except Exception:
+            self.wellformed, self._name, self._literalname = old[:3]
+            self.seqs[:] = old[3]
+            self._priority, self._literalpriority = old[4:]
+            self.seqs[1]._setSeq(oldvalue[0])
+            self.seqs[1].wellformed = oldvalue[1]
+            raise
+
+    def _setCssTextUnguarded(self, cssText):
         """
         :exceptions:
             - :exc:`~xml.dom.SyntaxErr`:
@@ -361,13 +383,14 @@ class Property(cssutils.util.Base):
             self._log.info('Property: Invalid priority: %s' % self._valuestr(priority))
 
         if wellformed:
+            # validate priority
+            normalpriority = self._normalize(new['literalpriority'])
+            if normalpriority not in ('', 'important'):
+                self._log.error('Property: No CSS priority value: %s' % normalpriority)
             self.wellformed = self.wellformed and wellformed
             self._literalpriority = new['literalpriority']
-            self._priority = self._normalize(self.literalpriority)
+            self._priority = normalpriority
             self.seqs[2] = newseq
-            # validate priority
-            if self._priority not in ('', 'important'):
-                self._log.error('Property: No CSS priority value: %s' % self._priority)
 
     literalpriority = property(
         lambda self: self._literalpriority,
